@@ -16,6 +16,33 @@ def schema_validator():
     return jsonschema.Draft4Validator(schema)
 
 
+@vlib.classifier('attachment-level-diff')
+def _cls_attachment_level(data, finding):
+    """a decision diff on an attachments dict whose entries all name mime types of its attachments (one level too high)"""
+    if data.get('kind') != 'not-wf' or not str(data.get('origin', '')).startswith('decision.'):
+        return False
+    try:
+        doc = vlib.dec(data['doc'])
+    except Exception:
+        return False
+    raw = data.get('raw') or []
+    if not isinstance(doc, dict) or not doc or not raw:
+        return False
+    if not all(isinstance(v, dict) and v and all('/' in k for k in v) for v in doc.values()):
+        return False
+    return all(isinstance(e, dict) and isinstance(e.get('key'), str) and '/' in e['key'] and e['key'] not in doc
+               and any(e['key'] in v for v in doc.values()) for e in raw)
+
+
+@vlib.classifier('collected-diff-levels')
+def _cls_collected_levels(data, finding):
+    """local / remote diff of the custom decision the clear-all / remove output strategies put on an outputs list"""
+    m = data.get('meta') or {}
+    return (data.get('kind') == 'not-wf' and data.get('origin') in ('decision.local_diff', 'decision.remote_diff')
+            and m.get('action') == 'custom' and (m.get('strategy') or [None] * 3)[2] in finding['param']['output_strategy']
+            and (m.get('path') or [None])[-1] == 'outputs')
+
+
 def collect(ctx):
     """(origin, base document, diff) triples produced by the implementation"""
     rng = ctx.rng
@@ -34,9 +61,11 @@ def collect(ctx):
             out.append(('notebook', a, r[1]))
     try:
         from checks import mergelib
-        n_m = 60 if ctx.tier == 'quick' else 1000
-        for _ in range(n_m):
-            out.extend(mergelib.decision_diffs(rng))
+        n_m = 330 if ctx.tier == 'quick' else 3300
+        scen = sorted(set(gen_nb.SCENARIOS))
+        for i in range(n_m):
+            # one merge in three from random edit scripts, the others from the conflict scenarios in rotation
+            out.extend(mergelib.decision_diffs(rng, first=None if i % 3 == 0 else scen[(i // 3 * 2 + i % 3) % len(scen)]))
     except ImportError:
         ctx.assumptions.append('merge decision diffs not yet collected (mergelib missing)')
     return out
@@ -50,7 +79,7 @@ def check(ctx, items):
         ctx.count('origin:' + origin)
         ctx.count('ops:%d' % min(len(d), 6))
         ctx.case(canon(doc) + vlib.canon_diff(d), bool(d))
-        base = {'doc': enc(doc), 'diff': enc_diff(d), 'origin': origin, 'raw': d}
+        base = {'doc': enc(doc), 'diff': enc_diff(d), 'origin': str(origin), 'raw': d, 'meta': getattr(origin, 'meta', None)}
         if len(json.dumps(d)) < 600 and d:
             ctx.sample({'origin': origin, 'diff': d}, limit=4)
         if rep.get('ok') is not True:
